@@ -699,7 +699,7 @@ Section GlobalLoop.
   Variable rep : mres -> str.
   Variable s : str.
   Hypothesis Hg : fg fl = true.
-  Hypothesis Hy : fy fl = false.
+  (* g alone or g together with y *)
   (* what match_wf guarantees of an engine result (match_wf_sound), for a scan started at p *)
   (* only asked of scans started at a code-point boundary when the u flag is set *)
   Hypothesis Hfind : forall p m, 0 <= p <= slen s -> (fu fl = true -> is_boundary s p = true) -> find s p = Some m ->
@@ -711,18 +711,20 @@ Section GlobalLoop.
 
   Lemma exec_core_g : forall pos, 0 <= pos ->
     exec_core find fl s pos =
-    (if pos <=? slen s then find s pos else None,
-     match (if pos <=? slen s then find s pos else None) with Some m => me m | None => 0 end).
+    (let r' := match (if pos <=? slen s then find s pos else None) with
+               | Some m => if fy fl && negb (ms m =? pos) then None else Some m
+               | None => None
+               end in
+     (r', match r' with Some m => me m | None => 0 end)).
   Proof.
-    intros pos Hp. unfold exec_core. rewrite Hg, Hy. simpl.
-    unfold to_length. rewrite Z.max_r by lia.
-    destruct (if pos <=? slen s then find s pos else None); reflexivity.
+    intros pos Hp. unfold exec_core. rewrite Hg. simpl.
+    unfold to_length. rewrite Z.max_r by lia. reflexivity.
   Qed.
 
-  Lemma rx2_all_beyond : forall fr pos st limit ign sticky,
-    slen s < pos -> rx2_all find fl s fr pos st limit ign sticky = [].
+  Lemma rx2_all_beyond : forall fr pos st limit sticky,
+    slen s < pos -> rx2_all find fl s fr pos st limit sticky = [].
   Proof.
-    intros [|fr] pos st limit ign sticky H; [reflexivity|]. simpl.
+    intros [|fr] pos st limit sticky H; [reflexivity|]. simpl.
     replace (slen s <? pos) with true by (symmetry; apply Z.ltb_lt; lia).
     rewrite orb_true_r. reflexivity.
   Qed.
@@ -751,15 +753,15 @@ Section GlobalLoop.
 
   (* the exec loop of the generic path and regexp2's FindNextMatch iteration list the same matches;
      the loop ends by itself (flag true) with lastIndex 0 *)
-  Lemma g_loop_rx2 : forall fgl fr pos st limit ign,
-    0 <= pos <= slen s + 1 -> bnd pos ->
+  Lemma g_loop_rx2 : forall fgl fr pos st limit,
+    0 <= pos <= slen s + 1 -> bnd pos -> (fy fl = true -> st = pos) ->
     slen s + 2 - pos <= Z.of_nat fgl -> slen s + 2 - pos <= Z.of_nat fr -> slen s + 1 - pos <= limit ->
-    g_loop find fl s fgl pos = (rx2_all find fl s fr pos st limit ign false, 0, true).
+    g_loop find fl s fgl pos = (rx2_all find fl s fr pos st limit (fy fl), 0, true).
   Proof.
-    induction fgl as [|f IH]; intros fr pos st limit ign Hp Hbd Hf1 Hf2 Hl; [lia|].
+    induction fgl as [|f IH]; intros fr pos st limit Hp Hbd Hst Hf1 Hf2 Hl; [lia|].
     destruct fr as [|fr]; [simpl in Hf2; lia|].
     pose proof slen_nonneg' as Hs.
-    cbn [g_loop]. rewrite exec_core_g by lia. cbn [rx2_all].
+    cbn [g_loop]. rewrite exec_core_g by lia. cbn [rx2_all]. cbv zeta.
     destruct (pos <=? slen s) eqn:Ep.
     - apply Z.leb_le in Ep.
       replace ((pos <? 0) || (slen s <? pos)) with false
@@ -768,18 +770,22 @@ Section GlobalLoop.
       assert (Hpp : 0 <= pos <= slen s) by lia.
       assert (Hbp : fu fl = true -> is_boundary s pos = true) by (intro Hu; apply Hbd; [exact Hu|lia]).
       destruct (Hfind pos m Hpp Hbp Ef) as [H1 [H2 [H3 [H4 H5]]]].
+      assert (Hb : fy fl && negb (ms m =? st) = fy fl && negb (ms m =? pos)).
+      { destruct (fy fl) eqn:Ey; [|reflexivity]. rewrite (Hst eq_refl). reflexivity. }
+      rewrite Hb. destruct (fy fl && negb (ms m =? pos)) eqn:Eb; [reflexivity|].
       rewrite (cap0_empty_iff pos m Hpp Hbp Ef).
       unfold to_length. rewrite (Z.max_r 0 (me m)) by lia.
-      simpl andb.
       set (next := if me m =? ms m then advance s (me m) (fu fl) else me m).
       assert (Hn : pos < next <= slen s + 1).
       { unfold next. destruct (me m =? ms m) eqn:E.
         - apply Z.eqb_eq in E. pose proof (advance_gt s (me m) (fu fl)). pose proof (advance_le s (me m) (fu fl)). lia.
         - apply Z.eqb_neq in E. lia. }
       assert (Hbn : bnd next) by (apply bnd_next; try assumption; lia).
-      rewrite (IH fr next st (limit - 1) ign) by (try exact Hbn; rewrite ?Nat2Z.inj_succ in *; lia).
-      destruct (negb ign && (limit - 1 <=? 0)) eqn:El.
-      + apply andb_true_iff in El. destruct El as [_ El]. apply Z.leb_le in El.
+      assert (Hst' : fy fl = true -> (if fy fl then next else st) = next) by (intro Ey; rewrite Ey; reflexivity).
+      rewrite (IH fr next (if fy fl then next else st) (limit - 1))
+        by (try exact Hbn; try exact Hst'; rewrite ?Nat2Z.inj_succ in *; lia).
+      destruct (limit - 1 <=? 0) eqn:El.
+      + apply Z.leb_le in El.
         assert (me m = slen s /\ ms m = slen s) by lia.
         assert (next = slen s + 1).
         { unfold next. replace (me m =? ms m) with true by (symmetry; apply Z.eqb_eq; lia).
@@ -799,19 +805,20 @@ Section GlobalLoop.
   Qed.
 
   Definition rx2_list : list mres :=
-    find_all find fl s RX2 0 (-1) false.
+    find_all find fl s RX2 0 (-1) (fy fl).
 
   Lemma find_all_rx2_unfold :
-    rx2_list = rx2_all find fl s (all_fuel s) 0 0 (slen s + 1) (negb (is_ascii s) && fu fl) false.
+    rx2_list = rx2_all find fl s (all_fuel s) 0 0 (slen s + 1) (fy fl).
   Proof. reflexivity. Qed.
 
   Lemma g_matches_rx2 : g_matches find fl s = (rx2_list, 0).
   Proof.
     unfold g_matches. rewrite find_all_rx2_unfold.
     pose proof slen_nonneg' as Hs.
-    rewrite (g_loop_rx2 (loop_fuel s) (all_fuel s) 0 0 (slen s + 1) (negb (is_ascii s) && fu fl)); [reflexivity| | | | |].
+    rewrite (g_loop_rx2 (loop_fuel s) (all_fuel s) 0 0 (slen s + 1)); [reflexivity| | | | | |].
     - lia.
     - intros _ _. apply boundary_0.
+    - reflexivity.
     - unfold loop_fuel, slen. lia.
     - unfold all_fuel, slen. lia.
     - lia.
@@ -824,8 +831,8 @@ Section GlobalLoop.
     intros n Hn. pose proof slen_nonneg' as Hs.
     assert (Hb : slen s + 2 - 0 <= Z.of_nat (loop_fuel s)) by (unfold loop_fuel, slen; lia).
     assert (Hb0 : bnd 0) by (intros _ _; apply boundary_0).
-    rewrite (g_loop_rx2 n (all_fuel s) 0 0 (slen s + 1) false) by (try exact Hb0; unfold all_fuel, slen in *; lia).
-    rewrite (g_loop_rx2 (loop_fuel s) (all_fuel s) 0 0 (slen s + 1) false) by (try exact Hb0; unfold all_fuel, slen in *; lia).
+    rewrite (g_loop_rx2 n (all_fuel s) 0 0 (slen s + 1)) by (try exact Hb0; try reflexivity; unfold all_fuel, slen in *; lia).
+    rewrite (g_loop_rx2 (loop_fuel s) (all_fuel s) 0 0 (slen s + 1)) by (try exact Hb0; try reflexivity; unfold all_fuel, slen in *; lia).
     split; reflexivity.
   Qed.
 
@@ -839,17 +846,17 @@ Section GlobalLoop.
   Lemma chain_weaken : forall l n n', n' <= n -> chain n l -> chain n' l.
   Proof. intros [|m t] n n' H Hc; simpl in *; [exact I|]. destruct Hc as [H1 H2]. split; [lia|exact H2]. Qed.
 
-  Lemma rx2_chain : forall fr pos st limit ign, 0 <= pos -> bnd pos -> chain pos (rx2_all find fl s fr pos st limit ign false).
+  Lemma rx2_chain : forall fr pos st limit sticky, 0 <= pos -> bnd pos -> chain pos (rx2_all find fl s fr pos st limit sticky).
   Proof.
-    induction fr as [|fr IH]; intros pos st limit ign Hp Hbd; [exact I|]. simpl.
+    induction fr as [|fr IH]; intros pos st limit sticky Hp Hbd; [exact I|]. cbn [rx2_all]. cbv zeta.
     destruct ((pos <? 0) || (slen s <? pos)) eqn:Ec; [exact I|].
     apply orb_false_iff in Ec. destruct Ec as [_ Ec]. apply Z.ltb_ge in Ec.
     destruct (find s pos) as [m|] eqn:Ef; [|exact I].
     assert (Hpp : 0 <= pos <= slen s) by lia.
     assert (Hbp : fu fl = true -> is_boundary s pos = true) by (intro Hu; apply Hbd; [exact Hu|lia]).
     destruct (Hfind pos m Hpp Hbp Ef) as [H1 [H2 [H3 [H4 H5]]]].
-    simpl andb.
-    destruct (negb ign && (limit - 1 <=? 0)); [simpl; repeat split; assumption|].
+    destruct (sticky && negb (ms m =? st)); [exact I|].
+    destruct (limit - 1 <=? 0); [simpl; repeat split; assumption|].
     destruct ((me m =? ms m) && (me m =? slen s)); [simpl; repeat split; assumption|].
     simpl. repeat split; try assumption.
     set (next := if me m =? ms m then advance s (me m) (fu fl) else me m).
@@ -868,7 +875,7 @@ Section GlobalLoop.
   (** match with g: optimised path = generic path, results and lastIndex, for every engine *)
   Lemma match_g_paths_agree : forall li, match_fast find fl s RX2 li = match_generic find fl s li.
   Proof.
-    intro li. unfold match_fast, match_generic. rewrite Hg, Hy. rewrite g_matches_rx2.
+    intro li. unfold match_fast, match_generic. rewrite Hg. rewrite g_matches_rx2.
     fold rx2_list.
     assert (Hc : chain 0 rx2_list) by (rewrite find_all_rx2_unfold; apply rx2_chain; [lia|intros _ _; apply boundary_0]).
     rewrite (chain_map_cap0 _ 0 Hc). destruct rx2_list; reflexivity.
@@ -894,7 +901,9 @@ Section GlobalLoop.
 
   Lemma replace_g_paths_agree : forall li, replace_fast find fl rep s RX2 li = replace_generic find fl rep s li.
   Proof.
-    intro li. unfold replace_fast, replace_generic. rewrite Hg, Hy. simpl negb. simpl orb.
+    intro li. unfold replace_fast, replace_generic. rewrite Hg. simpl negb. simpl orb.
+    pose proof slen_nonneg' as Hs0.
+    replace (0 <=? slen s) with true by (symmetry; apply Z.leb_le; lia).
     rewrite g_matches_rx2. fold rx2_list.
     assert (Hc : chain 0 rx2_list) by (rewrite find_all_rx2_unfold; apply rx2_chain; [lia|intros _ _; apply boundary_0]).
     pose proof slen_nonneg' as Hs.
@@ -948,17 +957,12 @@ Qed.
 Lemma match_g_re2_refuted :
   match_fast find_astar fl_g s_baac RE2 0 <> match_generic find_astar fl_g s_baac 0.
 Proof. vm_compute. discriminate. Qed.
-(* F202: with g and y the optimised path stops after the first empty match *)
-Lemma match_gy_refuted :
-  match_fast find_astar fl_gy s_baac RX2 0 <> match_generic find_astar fl_gy s_baac 0.
-Proof. vm_compute. discriminate. Qed.
-(* F203: the optimised splitter over regexp2's match list *)
-Lemma split_rx2_refuted :
-  split_fast find_astar fl_none s_baac RX2 None <> split_generic find_astar fl_none s_baac None.
-Proof. vm_compute. discriminate. Qed.
-(* ... while over Go's FindAll list it agrees on this input, and so do match/replace over regexp2's list *)
+(* ... while everything else agrees on this input, in particular what F202 and F203 were about before
+   4fe706d / 811a68b: g together with y, and the splitter over regexp2's match list *)
 Lemma baac_agreements :
   split_fast find_astar fl_none s_baac RE2 None = split_generic find_astar fl_none s_baac None /\
+  split_fast find_astar fl_none s_baac RX2 None = split_generic find_astar fl_none s_baac None /\
+  match_fast find_astar fl_gy s_baac RX2 0 = match_generic find_astar fl_gy s_baac 0 /\
   match_fast find_astar fl_g s_baac RX2 0 = match_generic find_astar fl_g s_baac 0 /\
   match_generic find_astar fl_g s_baac 0 = (RL [Some []; Some [97; 97]%N; Some []; Some []], 0).
 Proof. vm_compute. repeat split. Qed.
@@ -1134,7 +1138,7 @@ Section Split.
         replace (p =? prev) with false by (symmetry; apply Z.eqb_neq; lia). rewrite ?andb_false_r. simpl negb. cbv iota.
         unfold fastl. cbn [split_fast_loop]. fold fastl.
         replace (ms m =? me m) with true by (symmetry; apply Z.eqb_eq; lia).
-        replace (ms m =? 0) with true by (symmetry; apply Z.eqb_eq; lia). simpl andb. cbv iota.
+        replace (ms m =? p) with true by (symmetry; apply Z.eqb_eq; lia). simpl andb. cbv iota.
         rewrite ?Hqp, ?Emp.
         apply (IHk (Z.to_nat (slen s + 1 - (p + 1)))); try lia.
         right. lia.
@@ -1160,7 +1164,7 @@ Section Split.
         replace (ms m =? slen s) with true by (symmetry; apply Z.eqb_eq; lia). simpl andb. simpl negb. cbv iota.
         rewrite re2_beyond by lia.
         rewrite fastl_nil by lia. rewrite Eend. rewrite sl_end by lia. reflexivity.
-      + assert (Hhack : (ms m =? me m) && ((ms m =? 0) || (ms m =? slen s)) = false).
+      + assert (Hhack : (ms m =? me m) && ((ms m =? p) || (ms m =? slen s)) = false).
         { apply andb_false_iff. destruct (Z.eq_dec (ms m) (me m)) as [E|E]; [|left; apply Z.eqb_neq; exact E].
           right. apply orb_false_iff. split; apply Z.eqb_neq; lia. }
         rewrite Hhack.
@@ -1186,6 +1190,145 @@ Section Split.
         * replace (me m =? q) with false by (symmetry; apply Z.eqb_neq; exact Emq).
           apply (IHk (Z.to_nat (slen s + 1 - me m))); try lia.
           left. split; [reflexivity|left; reflexivity].
+  Qed.
+
+  (* ---- the same for regexp2's match list (which DOES contain empty matches adjacent to the previous match;
+     since 811a68b the splitter skips them) ---- *)
+  Let rx2 := rx2_all find fl s.
+
+  Lemma rx2_beyond' : forall f pos st limit, slen s < pos -> rx2 f pos st limit false = [].
+  Proof.
+    intros [|f] pos st limit H; unfold rx2; cbn [rx2_all]; [reflexivity|].
+    replace (slen s <? pos) with true by (symmetry; apply Z.ltb_lt; lia). rewrite orb_true_r. reflexivity.
+  Qed.
+
+  Lemma rx2_step : forall f pos st limit, 0 <= pos <= slen s ->
+    rx2 (S f) pos st limit false =
+    match find s pos with
+    | None => []
+    | Some m => if limit - 1 <=? 0 then [m]
+                else if (me m =? ms m) && (me m =? slen s) then [m]
+                else m :: rx2 f (if me m =? ms m then me m + 1 else me m) st (limit - 1) false
+    end.
+  Proof.
+    intros f pos st limit Hp. unfold rx2. cbn [rx2_all]. cbv zeta.
+    replace ((pos <? 0) || (slen s <? pos)) with false
+      by (symmetry; apply orb_false_iff; split; [apply Z.ltb_ge; lia|apply Z.ltb_ge; lia]).
+    rewrite Hu. destruct (find s pos) as [m|]; [|reflexivity]. rewrite advance_nonu. reflexivity.
+  Qed.
+
+  Lemma split_core_rx2 : forall k p q st F F' L,
+    Z.to_nat (slen s + 1 - q) = k -> 0 <= p <= q -> q <= slen s + 1 -> p <= slen s ->
+    slen s + 2 - q <= Z.of_nat F -> 2 * (slen s - q) + 3 <= Z.of_nat F' -> slen s + 1 - q <= L ->
+    fastl (rx2 F q st L false) p = sl F' p q.
+  Proof.
+    induction k as [k IHk] using lt_wf_ind.
+    intros p q st F F' L Hk Hpq Hq Hp HF HF' HL.
+    assert (Hs : 0 <= slen s) by (unfold slen; lia).
+    destruct (Z.eq_dec q (slen s + 1)) as [Eq|Eq].
+    { rewrite rx2_beyond' by lia. rewrite sl_end by lia. apply fastl_nil. lia. }
+    assert (Hq' : 0 <= q <= slen s) by lia.
+    destruct F as [|F]; [simpl in HF; lia|].
+    rewrite rx2_step by lia.
+    assert (Hskip_end : forall m l, ms m = slen s -> me m = slen s -> fastl (m :: l) p = fastl l p).
+    { intros m l E1 E2. unfold fastl. cbn [split_fast_loop].
+      replace (ms m =? me m) with true by (symmetry; apply Z.eqb_eq; lia).
+      replace (ms m =? slen s) with true by (symmetry; apply Z.eqb_eq; lia). rewrite orb_true_r. reflexivity. }
+    destruct (Z.eq_dec q (slen s)) as [Eqs|Eqs].
+    { rewrite sl_end by lia.
+      destruct (find s q) as [m|] eqn:Ef; [|apply fastl_nil; lia].
+      destruct (Hfind q m Hq' Ef) as [H1 [H2 H3]].
+      destruct (L - 1 <=? 0); [rewrite Hskip_end by lia; apply fastl_nil; lia|].
+      destruct ((me m =? ms m) && (me m =? slen s)); [rewrite Hskip_end by lia; apply fastl_nil; lia|].
+      rewrite Hskip_end by lia. replace (me m =? ms m) with true by (symmetry; apply Z.eqb_eq; lia).
+      rewrite rx2_beyond' by lia. apply fastl_nil. lia. }
+    destruct (find s q) as [m|] eqn:Ef.
+    2:{ rewrite fastl_nil by lia. symmetry. apply sl_none; [lia|exact Ef|lia]. }
+    destruct (Hfind q m Hq' Ef) as [H1 [H2 H3]].
+    replace (L - 1 <=? 0) with false by (symmetry; apply Z.leb_gt; lia).
+    set (d := Z.to_nat (ms m - q)).
+    assert (HF'd : (d <= F')%nat) by lia.
+    replace F' with (d + (F' - d))%nat by lia.
+    rewrite (sl_scan d (F' - d) p q m) by (try exact Ef; try lia; right; exact I).
+    assert (Hfm : find s (ms m) = Some m) by (apply (Hsame q m (ms m)); [lia|exact Ef|lia]).
+    remember (F' - d)%nat as G eqn:HeqG. assert (HG : 2 * (slen s - q) + 3 - (ms m - q) <= Z.of_nat G) by lia.
+    destruct (Z.eq_dec (me m) p) as [Emp|Emp].
+    - (* empty match at p = q: delivered by regexp2, skipped by the splitter; skipped by the generic loop *)
+      assert (q = p /\ ms m = p) by lia. destruct H as [Hqp Hmsp].
+      destruct G as [|G]; [simpl in HG; lia|].
+      replace ((me m =? ms m) && (me m =? slen s)) with false
+        by (symmetry; apply andb_false_iff; right; apply Z.eqb_neq; lia).
+      replace (me m =? ms m) with true by (symmetry; apply Z.eqb_eq; lia).
+      unfold fastl. cbn [split_fast_loop]. fold fastl.
+      replace (ms m =? me m) with true by (symmetry; apply Z.eqb_eq; lia).
+      replace (ms m =? p) with true by (symmetry; apply Z.eqb_eq; lia). simpl andb. cbv iota.
+      rewrite Hmsp. rewrite sl_step by lia.
+      rewrite (sticky_of_find p m) by (try lia; rewrite <- Hmsp; exact Hfm).
+      replace (ms m =? p) with true by (symmetry; apply Z.eqb_eq; lia). cbv zeta.
+      replace (Z.min (me m) (slen s) =? p) with true by (symmetry; apply Z.eqb_eq; lia).
+      rewrite Emp.
+      apply (IHk (Z.to_nat (slen s + 1 - (p + 1)))); try lia.
+    - destruct (Z.eq_dec (ms m) (slen s)) as [Eend|Eend].
+      + (* empty match at the end of the subject *)
+        assert (me m = slen s) by lia.
+        replace ((me m =? ms m) && (me m =? slen s)) with true
+          by (symmetry; apply andb_true_iff; split; apply Z.eqb_eq; lia).
+        rewrite Hskip_end by lia. rewrite fastl_nil by lia. rewrite Eend. rewrite sl_end by lia. reflexivity.
+      + replace ((me m =? ms m) && (me m =? slen s)) with false
+          by (symmetry; apply andb_false_iff; destruct (Z.eq_dec (me m) (ms m)); [right|left]; apply Z.eqb_neq; lia).
+        unfold fastl. cbn [split_fast_loop]. fold fastl.
+        assert (Hhack : (ms m =? me m) && ((ms m =? p) || (ms m =? slen s)) = false).
+        { apply andb_false_iff. destruct (Z.eq_dec (ms m) (me m)) as [E|E]; [|left; apply Z.eqb_neq; exact E].
+          right. apply orb_false_iff. split; apply Z.eqb_neq; lia. }
+        rewrite Hhack.
+        destruct G as [|G]; [simpl in HG; lia|].
+        rewrite sl_step by lia.
+        rewrite (sticky_of_find (ms m) m) by (try lia; exact Hfm). rewrite Z.eqb_refl. cbv zeta.
+        rewrite (Z.min_l (me m) (slen s)) by lia.
+        replace (me m =? p) with false by (symmetry; apply Z.eqb_neq; exact Emp).
+        assert (Hpiece : (if p =? ms m then [] else slice s p (ms m)) = slice s p (ms m)).
+        { destruct (p =? ms m) eqn:E; [|reflexivity]. apply Z.eqb_eq in E. rewrite <- E. rewrite slice_empty. reflexivity. }
+        rewrite Hpiece. f_equal. f_equal.
+        destruct (Z.eq_dec (me m) (ms m)) as [Eme|Eme].
+        * (* an empty match at ms m > p: afterwards the generic loop skips it once *)
+          replace (me m =? ms m) with true by (symmetry; apply Z.eqb_eq; exact Eme).
+          destruct G as [|G]; [simpl in HG; lia|].
+          rewrite sl_step by lia.
+          rewrite (sticky_of_find (me m) m) by (try lia; rewrite Eme; exact Hfm).
+          replace (ms m =? me m) with true by (symmetry; apply Z.eqb_eq; lia). cbv zeta.
+          replace (Z.min (me m) (slen s) =? me m) with true by (symmetry; apply Z.eqb_eq; lia).
+          apply (IHk (Z.to_nat (slen s + 1 - (me m + 1)))); try lia.
+        * replace (me m =? ms m) with false by (symmetry; apply Z.eqb_neq; exact Eme).
+          apply (IHk (Z.to_nat (slen s + 1 - me m))); try lia.
+  Qed.
+
+  Lemma split_paths_agree_rx2 : forall lim,
+    split_fast find fl s RX2 lim = split_generic find fl s lim.
+  Proof.
+    intro lim. unfold split_fast, split_generic.
+    assert (Hl : find_all find fl s RX2 0 (-1) false = rx2 (all_fuel s) 0 0 (slen s + 1) false) by reflexivity.
+    rewrite Hl. clear Hl.
+    assert (Hs : 0 <= slen s) by (unfold slen; lia).
+    assert (Hmain : (if slen s =? 0
+                     then RL (match rx2 (all_fuel s) 0 0 (slen s + 1) false with [] => [Some s] | _ => [] end)
+                     else RL (take_lim lim (fastl (rx2 (all_fuel s) 0 0 (slen s + 1) false) 0))) =
+                    (if slen s =? 0
+                     then RL (match sticky_at find s 0 with None => [Some s] | Some _ => [] end)
+                     else RL (take_lim lim (sl (split_fuel s) 0 0)))).
+    { destruct (slen s =? 0) eqn:E0.
+      - apply Z.eqb_eq in E0. unfold all_fuel. rewrite rx2_step by lia.
+        destruct (find s 0) as [m|] eqn:Ef.
+        + destruct (Hfind 0 m ltac:(lia) Ef) as [H1 [H2 H3]].
+          rewrite (sticky_of_find 0 m) by (try lia; exact Ef).
+          replace (ms m =? 0) with true by (symmetry; apply Z.eqb_eq; lia).
+          destruct (slen s + 1 - 1 <=? 0); [reflexivity|].
+          destruct ((me m =? ms m) && (me m =? slen s)); reflexivity.
+        + rewrite (sticky_none_of_find_none 0 Ef). reflexivity.
+      - apply Z.eqb_neq in E0. f_equal. f_equal.
+        apply (split_core_rx2 (Z.to_nat (slen s + 1 - 0)) 0 0 0); try lia.
+        + unfold all_fuel, slen. lia.
+        + unfold split_fuel, slen. lia. }
+    destruct lim as [z|]; [destruct z|]; try exact Hmain. reflexivity.
   Qed.
 
   (** split: the optimised splitter over Go's FindAll list = the generic protocol splitter *)
@@ -1248,4 +1391,132 @@ Proof.
   - intros p q Hp H Hq. unfold slen in Hp. simpl in Hp.
     assert (Hc : p = 0 \/ p = 1 \/ p = 2 \/ p = 3 \/ p = 4) by lia.
     destruct Hc as [E|[E|[E|[E|E]]]]; subst p; discriminate.
+Qed.
+
+(* ------------------------------------------------------------------------------------------- *)
+(** * replace without g (at most one match, sticky or not): optimised path = generic path for BOTH engines and every
+      lastIndex, including lastIndex beyond the subject (a3eeab9) and sticky on non-ASCII subjects (99d84e8) *)
+Section ReplaceOne.
+  Variable find : str -> Z -> option mres.
+  Variable fl : flags.
+  Variable rep : mres -> str.
+  Variable s : str.
+  Hypothesis Hng : fg fl = false.
+  Hypothesis Hfind : forall p m, 0 <= p <= slen s -> find s p = Some m ->
+      0 <= ms m /\ ms m <= me m /\ me m <= slen s /\ cap0 m = slice s (ms m) (me m).
+
+  Definition one (index : Z) (sticky : bool) : list mres :=
+    match find s index with
+    | Some m => if sticky && negb (ms m =? index) then [] else [m]
+    | None => []
+    end.
+
+  Lemma rx2_one : forall index sticky, 0 <= index <= slen s ->
+    rx2_all find fl s (all_fuel s) index index 1 sticky = one index sticky.
+  Proof.
+    intros index sticky Hi. unfold all_fuel, one. cbn [rx2_all]. cbv zeta.
+    replace ((index <? 0) || (slen s <? index)) with false
+      by (symmetry; apply orb_false_iff; split; apply Z.ltb_ge; lia).
+    destruct (find s index) as [m|]; [|reflexivity].
+    destruct (sticky && negb (ms m =? index)); reflexivity.
+  Qed.
+
+  Lemma re2_one : re2_all find s (all_fuel s) 0 (-1) 1 = match find s 0 with Some m => [m] | None => [] end.
+  Proof.
+    assert (Hs : 0 <= slen s) by (unfold slen; lia).
+    unfold all_fuel. cbn [re2_all].
+    replace (slen s <? 0) with false by (symmetry; apply Z.ltb_ge; lia). simpl orb.
+    destruct (find s 0) as [m|] eqn:Ef; [|reflexivity].
+    destruct (Hfind 0 m ltac:(lia) Ef) as [H1 _].
+    replace (ms m =? -1) with false by (symmetry; apply Z.eqb_neq; lia). rewrite andb_false_r. reflexivity.
+  Qed.
+
+  Lemma find_all_one : forall e index sticky, 0 <= index <= slen s ->
+    find_all find fl s e index 1 sticky = one index sticky.
+  Proof.
+    intros e index sticky Hi. unfold find_all.
+    change (if 1 <? 0 then slen s + 1 else 1) with 1.
+    destruct e; [|apply rx2_one; exact Hi].
+    destruct (index =? 0) eqn:E0; [|apply rx2_one; exact Hi].
+    apply Z.eqb_eq in E0. subst index.
+    assert (Hsp : (if sticky then sticky_prefix s (match find s 0 with Some m => [m] | None => [] end) 0
+                   else match find s 0 with Some m => [m] | None => [] end) = one 0 sticky).
+    { unfold one. destruct (find s 0) as [m|]; [|destruct sticky; reflexivity].
+      destruct sticky; [|reflexivity]. simpl. destruct (ms m =? 0); reflexivity. }
+    destruct (is_ascii s).
+    - rewrite re2_one. exact Hsp.
+    - simpl (1 =? 1). cbv iota. unfold one. destruct (find s 0) as [m|]; reflexivity.
+  Qed.
+
+  Lemma replace_one_paths_agree : forall e li,
+    replace_fast find fl rep s e li = replace_generic find fl rep s li.
+  Proof.
+    intros e li. assert (Hs : 0 <= slen s) by (unfold slen; lia).
+    assert (Hnil : assemble_generic rep s [] 0 [] = s).
+    { simpl. destruct (0 <? slen s) eqn:E; [apply slice_all|].
+      apply Z.ltb_ge in E. assert (length s = 0)%nat by (unfold slen in *; lia). destruct s; [reflexivity|discriminate]. }
+    unfold replace_fast, replace_generic, exec_core. rewrite Hng. simpl orb. simpl negb. cbv iota.
+    set (index := if fy fl then to_length li else 0).
+    assert (Hi0 : 0 <= index) by (unfold index, to_length; destruct (fy fl); lia).
+    destruct (index <=? slen s) eqn:Ei.
+    - apply Z.leb_le in Ei. rewrite find_all_one by lia. unfold one.
+      destruct (find s index) as [m|] eqn:Ef.
+      + destruct (fy fl && negb (ms m =? index)).
+        * rewrite Hnil. destruct (fy fl); reflexivity.
+        * destruct (Hfind index m ltac:(lia) Ef) as [H1 [H2 [H3 H4]]].
+          assert (Hres : assemble_fast rep s [m] 0 [] = assemble_generic rep s [m] 0 []).
+          { simpl. rewrite (Z.min_l (ms m) (slen s)) by lia. rewrite (Z.max_l (ms m) 0) by lia.
+            replace (0 <=? ms m) with true by (symmetry; apply Z.leb_le; lia).
+            assert (Hlen : Z.of_nat (length (cap0 m)) = me m - ms m) by (rewrite H4, slice_length by lia; lia).
+            rewrite Hlen. replace (ms m + (me m - ms m)) with (me m) by lia.
+            assert (Hfin : forall buf : str,
+                      (if me m =? slen s then buf else buf ++ slice s (me m) (slen s)) =
+                      (if me m <? slen s then buf ++ slice s (me m) (slen s) else buf)).
+            { intro buf. destruct (me m <? slen s) eqn:E1; destruct (me m =? slen s) eqn:E2; try reflexivity.
+              - apply Z.ltb_lt in E1. apply Z.eqb_eq in E2. lia.
+              - apply Z.ltb_ge in E1. apply Z.eqb_neq in E2. lia. }
+            rewrite Hfin.
+            destruct (ms m =? 0) eqn:E.
+            - apply Z.eqb_eq in E. rewrite E. rewrite slice_empty. reflexivity.
+            - rewrite <- app_assoc. reflexivity. }
+          rewrite Hres. destruct (fy fl); reflexivity.
+      + rewrite Hnil. destruct (fy fl); reflexivity.
+    - rewrite Hnil. destruct (fy fl); reflexivity.
+  Qed.
+End ReplaceOne.
+
+Lemma wf_engine_basic : forall (find : str -> Z -> option mres) u ncap names s,
+  (forall p m, 0 <= p <= slen s -> find s p = Some m -> match_wf u ncap names s p m = true) ->
+  forall p m, 0 <= p <= slen s -> find s p = Some m ->
+    0 <= ms m /\ ms m <= me m /\ me m <= slen s /\ cap0 m = slice s (ms m) (me m).
+Proof.
+  intros find u ncap names s H p m Hp Hf.
+  destruct (match_wf_sound _ _ _ _ _ _ (H p m Hp Hf)) as [_ [H2 [H3 [H4 [_ [_ [_ [H8 _]]]]]]]].
+  split; [exact H2|]. split; [exact H3|]. split; [exact H4|].
+  unfold nth_cap in H8. unfold cap0. destruct (mcaps m) as [|c cs]; [discriminate|]. simpl in H8. rewrite H8. reflexivity.
+Qed.
+
+Lemma replace_one_paths_agree_wf : forall (find : str -> Z -> option mres) fl rep s ncap names,
+  fg fl = false ->
+  (forall p m, 0 <= p <= slen s -> find s p = Some m -> match_wf (fu fl) ncap names s p m = true) ->
+  forall e li, replace_fast find fl rep s e li = replace_generic find fl rep s li.
+Proof.
+  intros find fl rep s ncap names Hng Hwf.
+  apply (replace_one_paths_agree find fl rep s Hng).
+  exact (wf_engine_basic find (fu fl) ncap names s Hwf).
+Qed.
+
+Lemma split_paths_agree_rx2_wf : forall (find : str -> Z -> option mres) (fl : flags) (s : str) ncap names,
+  fu fl = false ->
+  (forall p m, 0 <= p <= slen s -> find s p = Some m -> match_wf (fu fl) ncap names s p m = true) ->
+  (forall p m q, 0 <= p <= slen s -> find s p = Some m -> p <= q <= ms m -> find s q = Some m) ->
+  (forall p q, 0 <= p <= slen s -> find s p = None -> p <= q <= slen s -> find s q = None) ->
+  forall lim, split_fast find fl s RX2 lim = split_generic find fl s lim.
+Proof.
+  intros find fl s ncap names Hu Hwf Hsame Hnone.
+  apply (split_paths_agree_rx2 find fl s Hu); try assumption.
+  intros p m Hp Hf.
+  assert (Hb : fu fl = true -> is_boundary s p = true) by (intro H; rewrite Hu in H; discriminate).
+  destruct (wf_engine_ok find fl ncap names s Hwf p m Hp Hb Hf) as [H1 [H2 [H3 _]]].
+  repeat split; assumption.
 Qed.
